@@ -734,6 +734,9 @@ func TestC11(t *testing.T) {
 	if os.Getenv("VERIF_REPLAY") == "" {
 		c11Schedules(t, st)
 	}
+	if os.Getenv("VERIF_REPLAY") == "" && !hasConcrete(st.Violations) {
+		streamTimedCases(t, st)
+	}
 	st.Set("evaluations", runs)
 	st.Set("messages_sent", sent)
 	st.Set("fetches_with_candidates", queries)
